@@ -5,6 +5,8 @@ version compatibility; crafted acks that exceed or contradict the offer are refu
 import itertools, multiprocessing, os, random, traceback
 import prudp_session as ps
 import l1_corr
+import c06_sameaddr
+import c06_race
 
 LEVEL = "proof"
 EXTRA_TARGETS = ["nxdrv_C02"]
@@ -196,6 +198,19 @@ def work(args):
         if kind == "visitors":
             bad = visitors(seed, s, c)
             return idx, kind, repr(c), repr(s), seed, bad, None, None
+        if kind == "sameaddr":
+            # one long-lived server, visitors of different protocol versions one after another from ONE (ip, port)
+            sess = c06_sameaddr.run(seed & 0xFFFF, s, c)
+            bad = c06_sameaddr.oracle(sess)
+            sess.c06_kind = "sameaddr"
+            return idx, kind, repr(c), repr(s), seed, bad, sess, None
+        if kind == "race":
+            # a crafted ack arriving while the SYN / CONNECT is outstanding
+            cfg, cfgs = c06_race.cfgs(c)
+            sess = ps.run_session(cfg, seed & 0xFFFF, c06_race.script_of(c, rng), lambda sim, r: (lambda tx: [0.004]), cfg_s=cfgs,
+                                  setup=c06_race.setup_of(c), phases_gap=0.25, max_time=40.0)
+            bad = c06_race.oracle(sess, c)
+            return idx, kind, repr(c), repr(s), seed, bad, sess, None
         if kind == "grid":
             (cm, cs_, cf), (sm, ss_, sf) = c, s
             cfg = ps.Cfg(version=1, max_substream=cs_, minor_version=cm, supported_functions=cf, fragment_size=7)
@@ -339,6 +354,10 @@ def work(args):
                     bad.append("after a SYN ack lowering the offer (%s): client reports %r, server %r, expected %r" % (c, pc, psv, want))
             elif connected:
                 bad.append("client accepted a crafted %s (offer (3, 2, 0xF); its parameters now %r, server %r)" % (c, pc, psv))
+            if not connected and (sess.timed_out or sess.crash or "PRUDP connection failed" not in str(sess.connect_error)):
+                # a refused ack must leave the handshake to its retransmission timer: it fails cleanly, it does not stay half-open
+                bad.append("after a crafted %s the handshake neither completed nor failed with the library's connection error: connect ended with %s (timed_out=%s crash=%s, session ran %.1f s of virtual time)"
+                           % (c, str(sess.connect_error)[:120], sess.timed_out, sess.crash, sess.end_time))
         return idx, kind, repr(c), repr(s), seed, bad, sess, None
     except Exception:
         return idx, kind, repr(c), repr(s), seed, [], None, traceback.format_exc()
@@ -397,6 +416,12 @@ def cases(rng, quick):
     for c in lt3:
         for s_ in lt3:
             out.append(("lite", c, s_))
+    # ONE long-lived server visited one after another from the SAME (ip, port) by clients of different protocol versions
+    for srv, vis in c06_sameaddr.sequences(rng, quick):
+        out.append(("sameaddr", vis, srv))
+    # crafted acks arriving while the SYN / CONNECT is outstanding (ahead of / behind / instead of the genuine ack, silent server)
+    for spec in c06_race.specs(rng, quick):
+        out.append(("race", spec, None))
     for k in ["syn-identity", "con-identity", "syn-sub+1", "syn-minor+1", "syn-extra-bit", "con-sub-1", "con-minor-1", "con-minor+1", "con-mask"]:
         out.append(("crafted", k, None))
     return out
@@ -408,7 +433,12 @@ def run(ctx):
     ctx.rule = ("handshakes between real endpoints for (minor 0..6) x (max substream 0..3) x (function mask in {0,1,0x0F,0xA5A5A5,0xFFFFFF}) "
                 "for client and server (all 19600 pairs in the thorough tier; every triple on both sides + corners in quick), all 9 prudp.version "
                 "pairs, lite (also with max_substream_id > 0 on either side), 9 + 52 crafted SYN/CONNECT acks (every combination of lowering / keeping / raising the three parameters; contradicting SYN acks sent to either side after the handshake; CONNECT requests altered to exceed the server's configuration; correctly signed DATA on a substream above the negotiated maximum), and sequences of 3..6 clients of different capabilities (weak ones first, v0 among them) visiting one "
-                "dual-stack server port with interleaved handshakes (each must negotiate the meet of its own and the server's configuration); each UDP session is replayed through the Lean L1 model (every datagram byte- and "
+                "dual-stack server port with interleaved handshakes (each must negotiate the meet of its own and the server's configuration); "
+                "sequences of 2..6 visitors of different prudp.version (every sequence over {v0, v1} up to length 3 in quick, over {0,1,2} up to 3 and {0,1} of length 4 in thorough, longer ones drawn) "
+                "one after another from the SAME (ip, port) on one long-lived server (version 2, also 0 and 1 with incompatible visitors in between; visits whose CONNECTs are all lost; a few visits from other addresses), the server transport replayed through the L1 model; "
+                "correctly signed SYN acks exceeding the offer (19 combinations) / CONNECT acks contradicting the agreement (26) arriving WHILE the SYN / CONNECT is outstanding: "
+                "1..3 copies ahead of the genuine ack, behind it, in place of its lost first copy, or from a server that then falls silent, over udp and lite, resend_limit 0..3 "
+                "(the handshake completes with min/min/AND and working substreams, or fails with the connection error within (resend_limit+1)*resend_timeout - never half-open); each UDP session is replayed through the Lean L1 model (every datagram byte- and "
                 "tick-exact); distinct non-trivial = distinct (kind, client, server) configurations")
     jobs = [(i, k, c, s, ctx.rng.getrandbits(32)) for i, (k, c, s) in enumerate(cs)]
     drv = ctx.driver("C02")
@@ -421,7 +451,12 @@ def run(ctx):
             for what in bad:
                 ctx.violation("c06:%s:%s:%s" % (kind, c, s), what, {"kind": kind, "client": c, "server": s, "seed": seed,
                               "how": "harness/corr_C06.py work((0, kind, client, server, seed))"})
-            r = l1_corr.compare(drv, sess, "x") if sess is not None and kind in ("grid", "versions", "crafted") else {"ok": True, "diffs": [], "skipped": True}
+            if sess is not None and kind == "sameaddr":
+                r = c06_sameaddr.l1_compare(drv, sess)       # the SERVER transport of the whole visitor sequence through the L1 model
+            elif sess is not None and (kind in ("grid", "versions", "crafted") or (kind == "race" and sess.cfg.transport == "udp")):
+                r = l1_corr.compare(drv, sess, "x")
+            else:
+                r = {"ok": True, "diffs": [], "skipped": True}
             if not r["ok"]:
                 ndiff += 1
                 if first is None:
